@@ -68,6 +68,13 @@ func init() {
 				for e := 1; e <= 3; e++ {
 					add(fmt.Sprintf("extend:%d", e))
 				}
+				// bytes a "tolerant" comparison might strip: line ends, blanks, NUL, 0xff
+				for _, tail := range []string{"0a", "0d0a", "0a0a", "20", "09", "00", "ff", "0d"} {
+					add("tail:" + tail)
+					add("head:" + tail)
+					add("endswith:" + tail[:2]) // file whose digest ends in that byte, exact checksum
+					add("startswith:" + tail[:2])
+				}
 			}
 			out = append(out, sp("C13", "enum/nilhash/exact", seed, P("hash", "nil", "sum", "exact", "size", "10")))
 			out = append(out, sp("C13", "enum/nilhash/empty", seed, P("hash", "nil", "sum", "empty", "size", "10")))
@@ -87,7 +94,7 @@ func init() {
 				if dn == 0 {
 					dn = 32
 				}
-				sum := []string{"exact", "exact", "empty", "other", "otherhash", fmt.Sprintf("flip:%d", u("fb", dn*8)), fmt.Sprintf("prefix:%d", 1+u("pl", dn-1)), fmt.Sprintf("extend:%d", 1+u("ex", 3))}[u("sum", 8)]
+				sum := []string{"exact", "exact", "empty", "other", "otherhash", fmt.Sprintf("flip:%d", u("fb", dn*8)), fmt.Sprintf("prefix:%d", 1+u("pl", dn-1)), fmt.Sprintf("extend:%d", 1+u("ex", 3)), "tail:" + []string{"0a", "0d0a", "20", "00", "09"}[u("tl", 5)], "endswith:" + []string{"0a", "0d", "20", "00"}[u("ew", 4)]}[u("sum", 10)]
 				pp := P("hash", hn, "sum", sum, "size", fmt.Sprint(u("size", 20000)))
 				if u("ff", 4) == 0 {
 					pp["fsfault"] = []string{"missing", fmt.Sprintf("eio:%d", u("eo", 20000)), fmt.Sprintf("short:%d", 1+u("sr", 100)), "empty-file"}[u("fk", 4)]
@@ -144,6 +151,20 @@ func runC13(r *h.Run) {
 		hh.Write(data)
 		return hh.Sum(nil)
 	}
+	if strings.HasPrefix(sumMode, "endswith:") || strings.HasPrefix(sumMode, "startswith:") {
+		// search contents whose digest ends / starts with the given byte
+		var want byte
+		fmt.Sscanf(sumMode[strings.Index(sumMode, ":")+1:], "%02x", &want)
+		for n := 0; n < 20000; n++ {
+			cand := append([]byte(fmt.Sprintf("#%d\n", n)), contents...)
+			d := digest(hn, cand)
+			if (strings.HasPrefix(sumMode, "endswith:") && d[len(d)-1] == want) || (strings.HasPrefix(sumMode, "startswith:") && d[0] == want) {
+				contents = cand
+				node.Data = contents
+				break
+			}
+		}
+	}
 	good := digest(hn, contents)
 	var sum []byte
 	matches := false
@@ -173,6 +194,17 @@ func runC13(r *h.Run) {
 			l = len(good) - 1
 		}
 		sum = append([]byte(nil), good[:l]...)
+	case strings.HasPrefix(sumMode, "endswith:"), strings.HasPrefix(sumMode, "startswith:"):
+		sum = good
+		matches = true
+	case strings.HasPrefix(sumMode, "tail:"), strings.HasPrefix(sumMode, "head:"):
+		var extra []byte
+		fmt.Sscanf(sumMode[5:], "%x", &extra)
+		if strings.HasPrefix(sumMode, "tail:") {
+			sum = append(append([]byte(nil), good...), extra...)
+		} else {
+			sum = append(append([]byte(nil), extra...), good...)
+		}
 	case strings.HasPrefix(sumMode, "extend:"):
 		var e int
 		fmt.Sscanf(sumMode, "extend:%d", &e)
